@@ -302,7 +302,7 @@ def shape(scenario, history):
     kinds = tuple((e["k"], e.get("op")) for e in history)
     states = tuple(sorted(str(sorted((op.get("auto_state") or {}).items())) + op.get("form", "") for a in scenario["actors"] for op in a["ops"]))
     return {"nontrivial": faults > 0 or len(scenario["actors"]) > 1, "key": (scenario["client"], len(scenario["actors"]), faults, states),
-            "interleaving": kinds, "faults": {"grpc_status": faults}}
+            "interleaving": kinds, "faults": {"status_code": faults, "host_reseeds_global_prng": sum(1 for e in history if e["k"] == "reseed")}}
 
 
 # ------------------------------------------------------------------ generation-time half (static pre-flight)
